@@ -65,13 +65,21 @@ class ConstantKernel(Kernel):
             self.register_prior(
                 "constant_prior",
                 constant_prior,
-                lambda m: m.constant,
-                lambda m, v: m._set_constant(v),
+                self._constant_param,
+                self._constant_closure,
             )
 
         if constant_constraint is None:
             constant_constraint = Positive()
         self.register_constraint("raw_constant", constant_constraint)
+
+    def _constant_param(self, m):
+        # Used by the constant_prior (a method rather than a lambda: the module stays picklable)
+        return m.constant
+
+    def _constant_closure(self, m, v):
+        # Used by the constant_prior
+        return m._set_constant(v)
 
     @property
     def constant(self) -> Tensor:
